@@ -149,13 +149,25 @@ def magic_to_dict(kwargs, separator="_") -> dict:
         # dictionary (the dictionaries of the caller are not changed), later ones win
         val = v if len(keys) == 1 else {separator.join(keys[1:]): v}
         if isinstance(val, dict) and isinstance(new_kwargs.get(keys[0], None), dict):
-            new_kwargs[keys[0]] = {**new_kwargs[keys[0]], **val}
+            new_kwargs[keys[0]] = _merge_dicts(new_kwargs[keys[0]], val)
         else:
             new_kwargs[keys[0]] = val
     for k, v in new_kwargs.items():
         if isinstance(v, dict):
             new_kwargs[k] = magic_to_dict(v, separator=separator)
     return new_kwargs
+
+
+def _merge_dicts(first, second) -> dict:
+    """returns a new dictionary with the entries of both, merging nested dictionaries given
+    under the same key, entries of `second` win"""
+    merged = dict(first)
+    for k, v in second.items():
+        if isinstance(v, dict) and isinstance(merged.get(k, None), dict):
+            merged[k] = _merge_dicts(merged[k], v)
+        else:
+            merged[k] = v
+    return merged
 
 
 def linearize_dict(kwargs, separator=".") -> dict:
